@@ -17,6 +17,11 @@ class Unclassifiable(Exception):
     pass
 
 
+class NullDeref(Exception):
+    """the operation dereferences a pointer that is null in a case whose heap determines it: a definite crash, not an unknown"""
+    pass
+
+
 class Case:
     def __init__(self, name, ident, heap, expect):
         self.name = name
@@ -67,6 +72,17 @@ def remove_cases():
     mk("second of four or more", {"P": "F"}, False, True)
     mk("second to last of four or more", {"X": "L"}, False, True)
     mk("interior of five or more", {}, False, True)
+    # the node is NOT in the list: its registration was dropped by clear() (or it never registered), and its destructor still
+    # unregisters it. Nothing may change - and nothing may be dereferenced that is not there
+    for name, ident, heap in (("node not in the (empty) list", {}, {("list", "first"): NULL}),
+                              ("node not in the list of one", {"L": "F"}, {("list", "first"): "F", ("F", "prev_ptr"): "F", ("F", "next_ptr"): NULL}),
+                              ("node not in the list of several", {}, {("list", "first"): "F", ("F", "prev_ptr"): "L", ("L", "next_ptr"): NULL})):
+        h = dict(heap)
+        h[("N", "prev_ptr")] = NULL
+        h[("N", "next_ptr")] = NULL
+        c = Case(name, ident, h, dict(h))
+        c.absent = True
+        cases.append(c)
     return cases
 
 
@@ -119,7 +135,7 @@ class Interp:
                     raise Unclassifiable("member of non-object " + astq.text(n))
                 o = a[1]
             if o == NULL:
-                raise Unclassifiable("member access through a null pointer in case '%s': %s" % (self.case.name, astq.text(n)))
+                raise NullDeref("`%s` goes through a null pointer" % astq.text(n))
             return ("field", o, m)
         if k == "UnaryOperator" and n.get("op") == "*":
             o = self.val(n["c"][0])
@@ -240,6 +256,10 @@ def analyse(fn, cases):
             it.run(fn["body"])
         except Unclassifiable as e:
             out.append((case, None, str(e)))
+            continue
+        except NullDeref as e:
+            case.counters = dict(it.counters)
+            out.append((case, False, ["list.crash: %s" % e]))
             continue
         case.counters = dict(it.counters)
         diffs = []
